@@ -18,7 +18,8 @@ var profile = gen.Profile{
 	IDPool: []string{"1", "2", `"1"`, "3", `"s"`},
 	PNote:  0, PGate: 75, PInvalid: 5, PUnknown: 22, PBatch: 30, MaxBatch: 3,
 	PCancel: 18, PBurst: 25, PObey: 35, Builtins: true, Pins: true,
-	AllowPush: true, PPush: 7, // outstanding server callbacks use ids 1, 2, 3 of their own
+	PSendFault: 20,             // the channel refuses a reply now and then: the id is free again all the same
+	AllowPush:  true, PPush: 7, // outstanding server callbacks use ids 1, 2, 3 of their own
 	Outcomes: []string{"ok", "ok", "err:-32000", "ctxerr", "bad"},
 	Chans:    []string{"direct", "pipe"},
 }
